@@ -57,6 +57,22 @@ CHECKS.update({
     ),
 })
 
+CHECKS.update({
+    "C02": (
+        "exploration",
+        "differential runtime monitor: real leapfrog (hook) vs dense-matrix reference; reversibility, Jacobian, order, exactness",
+        "The hook-exported Hamiltonian::leapfrog of TransformedHamiltonian with explicit diagonal / low-rank transformations "
+        "(rank 0..d, d in {1..64}) is executed with scripted momentum in both directions and compared with a naive dense-matrix "
+        "leapfrog in the original space (M^-1 = F F^T), with its own inverse (forward then backward), with a finite-difference "
+        "Jacobian determinant, with the second-order energy error law over 8/16/32 steps, and with exact energy conservation "
+        "of the ExactNormal integrator on the Gaussian whitened by the transformation; transformation inverse, gradient "
+        "pull-back (also vs finite differences) and log-determinant are compared with a dense LU.",
+        "Trusted: the harness' dense reference; tolerances 1e-9 relative (1e-8 for the inverse). ESH reversibility only for "
+        "moderate contraction (inconclusive otherwise).",
+        "DESIGN.md §3 C02",
+    ),
+})
+
 NOT_YET = {}
 
 
